@@ -1,5 +1,6 @@
 import HapModel.Drv.Util
 import HapModel.Frame
+import HapModel.Event
 namespace Hap.Drv.Frame
 open Lean Hap Hap.Drv Hap.Frame
 
@@ -49,6 +50,10 @@ def handle (j : Json) : R Json := do
     let key ← getNat j "key"
     let ps ← (← getArr j "payloads").toList.mapM asHex
     pure (Json.mkObj [("wire", jhex (wires (mockAead key) 0 ps))])
+  | "event" =>
+    -- create_hap_event around the given JSON body bytes
+    let body ← getHex j "body"
+    pure (Json.mkObj [("msg", jhex (Hap.Event.createEvent body))])
   | _ => throw s!"frame: unknown op {op}"
 
 end Hap.Drv.Frame
